@@ -88,7 +88,24 @@ def _subview(m: EffectMachine, op, vals, core):
 
     offs = mix(op.offsets, op.static_offsets)
     sizes = mix(op.sizes, op.static_sizes)
-    vals[op.result] = Ref(src.site, [a + b for a, b in zip(src.offs, offs)], sizes)
+    offs = [a + b for a, b in zip(src.offs, offs)]
+    drop = len(sizes) - len(op.result.type.get_shape())
+    if drop > 0:
+        # rank-reducing subview (MLIR: computeRankReductionMask): walking the sizes, a size that equals the next dimension
+        # of the result shape is kept, any other size must be a unit dimension and is dropped
+        static = list(op.static_sizes.get_values())
+        rshape = list(op.result.type.get_shape())
+        keep = []
+        for j, st in enumerate(static):
+            if len(keep) < len(rshape) and st == rshape[len(keep)]:
+                keep.append(j)
+            elif st != 1:
+                raise HarnessError("subview sizes do not match the result shape")
+        offs_full = tuple(offs)
+        sizes = [sizes[j] for j in keep]
+        vals[op.result] = Ref(src.site, list(offs_full), sizes)
+        return
+    vals[op.result] = Ref(src.site, offs, sizes)
 
 
 @handler(affine.MinOp)
